@@ -1,6 +1,7 @@
 package hx
 
 import (
+	"time"
 	"bytes"
 	"encoding/json"
 	"fmt"
@@ -421,6 +422,13 @@ func canonAny(v any, blank map[string]bool) string {
 		sort.Strings(es)
 		return "[" + strings.Join(es, ",") + "]"
 	default:
+		// blank["\x00now"]: any string that is a timestamp of the current hour is the creation time under another
+		// member name (an annotation date, say)
+		if str, ok := x.(string); ok && blank["\x00now"] && len(str) >= 20 && len(str) <= 35 {
+			if ts, err := time.Parse(time.RFC3339Nano, str); err == nil && time.Since(ts) < time.Hour && time.Until(ts) < time.Hour {
+				return "_"
+			}
+		}
 		b, _ := json.Marshal(x)
 		return string(b)
 	}
